@@ -67,6 +67,7 @@ Proof.
   - rewrite app_nil_r in Hcs. subst done.
     rewrite (search_loop_end h v Hos fuel slm vol parent pi slcount saved cs Hok Hb). cbn. discriminate.
   - subst cs. rewrite (search_loop_on h v Hos fuel slm vol parent pi slcount saved done todo c Hok Hb). cbv zeta.
+    destruct (root_check h v vol parent); [cbn; discriminate|].
     destruct (alookup str_eqb c (children h parent)) as [n|] eqn:Hl.
     2:{ cbn [sr_err]. destruct (is_nil todo); discriminate. }
     pose proof (ptr_valid_get h parent c n Hpv Hl) as Hgv.
@@ -173,7 +174,7 @@ Theorem sym_bridge_lookup_sized (s : fsys) (sv : sview) (slm : slmode) (cs : lis
   let v := sv_view sv in
   let h := f_heap s in
   v_os v = Linux -> walk_wf h -> links_clean h -> ptr_valid h -> tbound h T ->
-  node_is_dir h (v_root v) = true -> kperm h (v_root v) 1 (v_user v) = true ->
+  node_is_dir h (v_root v) = true ->
   Forall good_comp cs ->
   (slCountMax + 1) * (length cs + slCountMax * T + 1) <= SEARCH_FUEL ->
   length cs + 1 + MAXSYMLINKS * T <= WALK_FUEL ->
@@ -181,7 +182,7 @@ Theorem sym_bridge_lookup_sized (s : fsys) (sv : sview) (slm : slmode) (cs : lis
   let r := search_node s v (abs_path cs) slm in
   K <> WErr ELOOP -> walk_rel h (v_user v) (v_root v) (precise_of slm) r K.
 Proof.
-  intros v h Hos Hwf Hlc Hpv Htb Hrd Hrp Hg Hf1 Hf2 K r Hk. subst K r.
+  intros v h Hos Hwf Hlc Hpv Htb Hrd Hg Hf1 Hf2 K r Hk. subst K r.
   assert (Hok : Forall comp_ok cs) by (apply Forall_comp_ok_of; exact Hg).
   apply sym_bridge_lookup; auto.
   - rewrite (klookup_abs_path s sv false (follow_of slm) cs Hg).
